@@ -20,8 +20,19 @@ FLOW_BOUNDS = {
 }
 
 
+SSE_LEVEL = ("exhaustive small-scope enumeration: every world within the stated bounds is executed on the "
+             "real headers and judged by a reference model written from the property statement; "
+             "no sampling, no solver")
+SSE_TECH = "explicit-state small-scope exhaustive enumeration on the implementation, reference-model oracle"
+
+
 def flow(rule, extra_assume=()):
     return {
+        "engine": "sse",
+        "level_text": SSE_LEVEL,
+        "level_note": "bounded scope (<= 9 nodes quick, <= 16 thorough; <= 4 elevation levels x 6 value maps); "
+                      "reference geometry bound to the library by C07/C18; g++ 12 -O1",
+        "technique": SSE_TECH,
         "harnesses": [{"name": "flow", "families": True}],
         "rule": rule,
         "assumptions": FLOW_ASSUME + list(extra_assume),
@@ -55,4 +66,61 @@ PROPERTIES = {
                 "both traversal orders + levels"),
     "C19": flow("worlds as C01 with single-direction programs, basins() called after each of three "
                 "updates (twice after the last); non-trivial = >= 2 basins; distinct = digest of labels"),
+}
+
+
+PROPERTIES["C07"] = {
+    "engine": "sse",
+    "level_text": "explicit-state breadth-first search over query histories: states = contents of the neighbour "
+                  "cache reached by accessor calls, events = (accessor, node); every answer on every transition "
+                  "is compared with the reference geometry; cache-on and cache-off grids both explored",
+    "level_note": "shapes 2x2..3x3 (quick) / ..4x4 (thorough), all 100 admissible raster border mixes, all "
+                  "admissible profile pairs, 2-3 spacings; BFS depth = number of nodes on <= 6-node grids, "
+                  "3 (quick) / 5 (thorough) on 3x3; state de-duplicated on the raw cache content",
+    "technique": "explicit-state BFS over cache states of the real grid objects, reference-geometry oracle",
+    "harnesses": [{"name": "grid"}],
+    "rule": "states = distinct raw contents of the neighbour cache (hash of the private table) per grid "
+            "configuration, reached by replaying accessor histories on a fresh grid; transitions = accessor "
+            "calls judged; non-trivial = a state other than the empty cache; distinct = (configuration, cache content)",
+    "assumptions": ["the cache is the only mutable state of a grid (read through -fno-access-control)",
+                    "size-2 looped axes list the same neighbour twice: multiset semantics",
+                    "spacings from a listed set; shapes bounded"],
+    "bounds": {"quick": {"shapes": "profile 2..5, raster 2x2 2x3 3x2 3x3", "depth": "n (<=6 nodes), 3 (3x3)"},
+               "thorough": {"shapes": "+ profile 6 8, raster 2x4 4x2 3x4 4x4", "depth": "n (<=6), 5 (3x3), 3 (larger)"}},
+    "deadline": {"quick": 600, "thorough": 3000},
+}
+PROPERTIES["C17"] = {
+    "engine": "sse",
+    "level_text": SSE_LEVEL,
+    "level_note": "all 4^2 / 4^4 border combinations x override maps with <= 2 entries (every node incl. "
+                  "out-of-range keys x every status) on the listed shapes; meshes with the three status "
+                  "constructors and the two that must be rejected",
+    "technique": SSE_TECH,
+    "harnesses": [{"name": "grid"}],
+    "rule": "worlds = grid constructor arguments (type, shape, 4 border statuses, override map); judged: "
+            "throw / no-throw against the documented admissibility rule, status array against the documented "
+            "composition, unfiltered and 4 status-filtered iterations forward and reverse, default base levels "
+            "of a new flow graph; non-trivial = every world (rejections and acceptances both carry an "
+            "expectation); distinct = digest of expected status layout or of the rejected configuration",
+    "assumptions": ["override maps have at most 2 entries", "shapes bounded as listed"],
+    "bounds": {"quick": {"shapes": "profile 2 3 4; raster 2x2 2x3 3x3"},
+               "thorough": {"shapes": "+ profile 6; raster 3x2 3x4 4x4; 2 overrides on 3x3"}},
+    "deadline": {"quick": 600, "thorough": 3000},
+}
+PROPERTIES["C18"] = {
+    "engine": "sse",
+    "level_text": SSE_LEVEL,
+    "level_note": "all 7^4 cell assignments of the 3x3 point lattice (absent / two splits / four single "
+                  "triangles per cell) x 3-4 jitter patterns x vertex orders; folded or near-degenerate "
+                  "jittered meshes are skipped and counted",
+    "technique": SSE_TECH,
+    "harnesses": [{"name": "grid"}],
+    "rule": "worlds = (cell assignment, jitter, vertex order); oracle = triangle-edge neighbour model, "
+            "once-seen-edge boundary model, circumcentric area shares in long double; non-trivial = mesh has "
+            ">= 1 triangle; distinct = digest of neighbour counts + reference areas",
+    "assumptions": ["meshes are sub-triangulations of a 9-point lattice; coordinates from 4 listed jitters",
+                    "areas compared with relative tolerance 1e-11"],
+    "bounds": {"quick": {"meshes": "2401 x 3 jitters x 2-6 vertex orders"},
+               "thorough": {"meshes": "2401 x 4 jitters x 6 vertex orders"}},
+    "deadline": {"quick": 600, "thorough": 3000},
 }
